@@ -199,6 +199,17 @@ func (cl *cluster) serveAgent(n int, w http.ResponseWriter, req *http.Request) {
 		json.NewEncoder(w).Encode(map[string]interface{}{"id": fmt.Sprint(p.id), "type": "process", "links": map[string]string{"self": self},
 			"processType": "sync", "srcFile": p.srcFile, "destfile": p.destFile, "port": p.port, "exitCode": p.exit, "output": ""})
 	}
+	if req.Method == "GET" && strings.Contains(req.URL.Path, "/v1/processes/r") && cl.agentOutage[n] == 1 {
+		// the first status poll after the agent died falls into the outage: it is refused.  While the caller digests
+		// that, the new agent is given other work (small unrelated transfers, as a source that is itself being rebuilt
+		// would run): they take the process ids from 1 up to the one being polled, and they all end with exit code 0.
+		cl.agentOutage[n] = 2
+		var id int
+		fmt.Sscanf(strings.TrimPrefix(filepath.Base(req.URL.Path), "r"), "%d", &id)
+		cl.unrelatedTransfers(n, id)
+		w.WriteHeader(502)
+		return
+	}
 	if req.Method == "GET" && strings.Contains(req.URL.Path, "/v1/processes/r") {
 		cl.serveRealAgent(n, w, "GET", strings.Replace(req.URL.Path, "/v1/processes/r", "/v1/processes/", 1), nil)
 		return
@@ -234,10 +245,16 @@ func (cl *cluster) serveAgent(n int, w http.ResponseWriter, req *http.Request) {
 		} else {
 			body["srcFile"] = filepath.Join(cl.nodes[n].(*RealNode).dir, in.SrcFile)
 			body["host"] = "127.0.0.1"
-			if (cl.failXfer || cl.killXfer) && strings.HasSuffix(in.SrcFile, ".img") {
+			if (cl.failXfer || cl.killXfer || cl.restartAgent) && strings.HasSuffix(in.SrcFile, ".img") {
 				fault := "exit1"
-				if cl.killXfer {
+				if cl.killXfer || cl.restartAgent {
 					fault = "kill"
+				}
+				if cl.restartAgent {
+					// the whole sync agent of this node dies with the sender it started and comes back with an empty process
+					// table (done below, once the launch has been answered)
+					cl.restartAgent = false
+					cl.restartingAgent = true
 				}
 				os.Setenv("VERIF_SSYNC_FAULT", fault) // inherited by the sender the agent starts for this request
 				cl.failXfer, cl.killXfer = false, false
@@ -247,6 +264,21 @@ func (cl *cluster) serveAgent(n int, w http.ResponseWriter, req *http.Request) {
 		}
 		cl.cnt["real_agent_transfers"]++
 		cl.serveRealAgent(n, w, "POST", "/v1/processes", body)
+		if cl.restartingAgent {
+			cl.restartingAgent = false
+			delete(cl.agents, n) // the next request builds a new agent: process ids start at 1 again
+			if cl.agentOutage == nil {
+				cl.agentOutage = map[int]int{}
+			}
+			cl.agentOutage[n] = 1
+			for k := range cl.senderPort { // the harness's notes about the old agent's senders go with it
+				if strings.HasPrefix(k, fmt.Sprintf("%d/", n)) {
+					delete(cl.senderPort, k)
+				}
+			}
+			cl.cnt["sync_agent_restarts"]++
+			cl.observe("the sync agent of node %d died with the sender it had started and was restarted", n)
+		}
 		return
 	}
 	p := &agentProc{id: len(cl.procs) + 1, node: n, destFile: in.DestFile, srcFile: in.SrcFile, port: in.Port, exit: -2}
@@ -794,3 +826,74 @@ func (cl *cluster) tick(node int, foldFails bool) {
 // started.  refuseAgentPolls: the sync agents refuse connections.  Both are touched by the cleaner's goroutine (through
 // the transport) while the harness goroutine waits in tick(): atomics, no cluster map.
 var spawnFailPolls, refuseAgentPolls int32
+
+// unrelatedTransfers runs, on the (new) real sync agent of node n, complete transfers of a small scratch file until
+// the agent's process table holds ids 1..upTo, every one of them ended with exit code 0.
+func (cl *cluster) unrelatedTransfers(n, upTo int) {
+	call := func(method, path string, body map[string]interface{}) map[string]interface{} {
+		var rd io.Reader
+		if body != nil {
+			b, _ := json.Marshal(body)
+			rd = bytes.NewReader(b)
+		}
+		req := httptest.NewRequest(method, "http://"+ip(n)+":9504"+path, rd)
+		if body != nil {
+			req.Header.Set("Content-Type", "application/json")
+		}
+		rec := httptest.NewRecorder()
+		if cl.agents[n] == nil {
+			span := 100
+			if cl.cfg.AgentPorts > 0 {
+				span = cl.cfg.AgentPorts
+			}
+			base := portBase() + 100*n
+			if cl.agents == nil {
+				cl.agents = map[int]http.Handler{}
+			}
+			cl.agents[n] = agent.NewRouter(agent.NewServer(base, base+span-1))
+		}
+		cl.agents[n].ServeHTTP(rec, req)
+		var m map[string]interface{}
+		json.Unmarshal(rec.Body.Bytes(), &m)
+		return m
+	}
+	wait := func(id string) float64 {
+		deadline := time.Now().Add(30 * time.Second)
+		for time.Now().Before(deadline) {
+			if m := call("GET", "/v1/processes/"+id, nil); m != nil {
+				if ec, ok := m["exitCode"].(float64); ok && ec != -2 {
+					return ec
+				}
+			}
+			time.Sleep(200 * time.Microsecond)
+		}
+		return -2
+	}
+	os.Setenv("VERIF_SSYNC_FAULT", "")
+	dir := filepath.Join(cl.nodes[n].(*RealNode).dir, "..", fmt.Sprintf("unrelated-%d", n))
+	os.MkdirAll(dir, 0755)
+	defer os.RemoveAll(dir)
+	last := 0
+	for k := 0; last < upTo && k < 8; k++ {
+		src, dst := filepath.Join(dir, fmt.Sprintf("src%d", k)), filepath.Join(dir, fmt.Sprintf("dst%d", k))
+		os.WriteFile(src, bytes.Repeat([]byte{byte(k + 1)}, 4096), 0644)
+		r := call("POST", "/v1/processes", map[string]interface{}{"processType": "sync", "destfile": dst})
+		port, _ := r["port"].(float64)
+		rid := fmt.Sprint(r["id"])
+		// the receiver must listen before its sender is started
+		for deadline := time.Now().Add(30 * time.Second); time.Now().Before(deadline); time.Sleep(200 * time.Microsecond) {
+			if c, err := net.DialTimeout("tcp", fmt.Sprintf("127.0.0.1:%d", int(port)), 100*time.Millisecond); err == nil {
+				c.Close()
+				break
+			}
+		}
+		sd := call("POST", "/v1/processes", map[string]interface{}{"processType": "sync", "srcFile": src, "host": "127.0.0.1", "port": int(port)})
+		sid := fmt.Sprint(sd["id"])
+		if wait(sid) != 0 || wait(rid) != 0 {
+			cl.observe("an unrelated transfer on the restarted agent of node %d did not complete", n)
+			return
+		}
+		fmt.Sscanf(sid, "%d", &last)
+		cl.cnt["unrelated_transfers_on_a_restarted_agent"]++
+	}
+}
